@@ -243,7 +243,7 @@ def adfStep (a : AdfSt) (l : String) (ws : List String) : Option (List String ×
     match parseTable table, parseNatList ac "," with
     | some ns, some acs =>
       let base := if p.endsWith "fresh" then (p.dropEnd 5).toString else p
-      let wf := wfCheck ns
+      let wf := wfCheckFast ns
       -- expected functions: the natively compiled conditions (pre-grounded: the grounded residuals)
       let nat := buildNative a.n a.fms.toList
       let exp := if base == "hybridpre" then groundedLoop StoreRA (a.n + 1) nat.1 nat.2 else nat
